@@ -10,11 +10,13 @@ fn merge_two(na: usize, nb: usize) {
     let ca: u64 = kani::any();
     let cb: u64 = kani::any();
     let max: usize = kani::any();
+    let pt_a: u64 = kani::any();
+    let pt_b: u64 = kani::any();
     kani::assume(prev_a < 1000 && prev_b < 1000 && max <= 8);
     let ea = crate::h_vec3(na, |k| Entry { index: prev_a + 1 + k as u64, term: term_a, payload: 10 + k as u8 });
     let eb = crate::h_vec3(nb, |k| Entry { index: prev_b + 1 + k as u64, term: term_b, payload: 20 + k as u8 });
-    let ra = AppendEntriesRequest { term: term_a, leader_id: 2, prev_log_index: prev_a, prev_log_term: 7, entries: ea, leader_commit_index: ca };
-    let rb = AppendEntriesRequest { term: term_b, leader_id: 2, prev_log_index: prev_b, prev_log_term: 8, entries: eb, leader_commit_index: cb };
+    let ra = AppendEntriesRequest { term: term_a, leader_id: 2, prev_log_index: prev_a, prev_log_term: pt_a, entries: ea, leader_commit_index: ca };
+    let rb = AppendEntriesRequest { term: term_b, leader_id: 2, prev_log_index: prev_b, prev_log_term: pt_b, entries: eb, leader_commit_index: cb };
     let mut s = MergeSlice { buffered_inbound_event: VecDeque::new(), ctx: Ctx { node_config: NodeConfig { raft: RaftCfg { batching: Batching { max_merge_entries: max } } } } };
     s.buffered_inbound_event.push_back(InboundEvent::AppendEntries(ra, vec![1u8]));
     s.buffered_inbound_event.push_back(InboundEvent::AppendEntries(rb, vec![2u8]));
@@ -29,7 +31,7 @@ fn merge_two(na: usize, nb: usize) {
     match first {
         Some(InboundEvent::AppendEntries(m, senders)) => {
             // the front request still starts where A started and is from A's term
-            assert!(m.prev_log_index == prev_a && m.prev_log_term == 7 && m.term == term_a, "C36:merged_request_lost_its_prev_or_term");
+            assert!(m.prev_log_index == prev_a && m.prev_log_term == pt_a && m.term == term_a, "C36:merged_request_lost_its_prev_or_term");
             let merged = m.entries.len() == na + nb && senders.len() == 2;
             let untouched = m.entries.len() == na && senders.len() == 1;
             assert!(merged || untouched, "C36:entries_or_senders_lost_or_duplicated");
@@ -92,4 +94,53 @@ pub fn c36_merge_two_requests_2_1() {
 #[kani::unwind(2)]
 pub fn c36_merge_heartbeat_then_entry() {
     merge_two(0, 1)
+}
+
+/// Three queued one-entry requests A, B, C: whatever gets merged must form a chain (each absorbed request starts where
+/// the merged one currently ends, same term) and the merged entries are the concatenation in queue order.
+#[kani::proof]
+#[kani::unwind(2)]
+pub fn c36_merge_three_requests() {
+    let term: [u64; 3] = kani::any();
+    let prev: [u64; 3] = kani::any();
+    let commit: [u64; 3] = kani::any();
+    let max: usize = kani::any();
+    let pt: [u64; 3] = kani::any();
+    kani::assume(prev[0] < 1000 && prev[1] < 1000 && prev[2] < 1000 && max <= 8);
+    let mut s = MergeSlice { buffered_inbound_event: VecDeque::new(), ctx: Ctx { node_config: NodeConfig { raft: RaftCfg { batching: Batching { max_merge_entries: max } } } } };
+    let mut i = 0;
+    while i < 3 {
+        let e = vec![Entry { index: prev[i] + 1, term: term[i], payload: 10 * (i as u8 + 1) }];
+        let r = AppendEntriesRequest { term: term[i], leader_id: 2, prev_log_index: prev[i], prev_log_term: pt[i], entries: e, leader_commit_index: commit[i] };
+        s.buffered_inbound_event.push_back(InboundEvent::AppendEntries(r, vec![i as u8 + 1]));
+        i += 1;
+    }
+    s.merge_append_entries();
+    match s.buffered_inbound_event.pop_front() {
+        Some(InboundEvent::AppendEntries(m, senders)) => {
+            let n = m.entries.len();
+            kani::cover!(n == 3, "all_three_merged");
+            kani::cover!(n == 2, "two_merged");
+            kani::cover!(n == 1, "none_merged");
+            assert!(n >= 1 && n <= 3 && senders.len() == n, "C36:entries_or_senders_lost_or_duplicated");
+            assert!(m.prev_log_index == prev[0] && m.term == term[0], "C36:merged_request_lost_its_prev_or_term");
+            let mut k = 0;
+            while k < 3 {
+                if k < n {
+                    // the k-th merged entry is request k's entry, and request k continued the chain
+                    assert!(m.entries[k].payload == 10 * (k as u8 + 1) && senders[k] == k as u8 + 1, "C36:merged_entries_not_the_concatenation");
+                    if k > 0 {
+                        assert!(prev[k] == prev[0] + k as u64 && term[k] == term[0], "C36:non_contiguous_or_other_term_request_merged");
+                        assert!(m.leader_commit_index >= commit[k], "C36:merged_commit_index_not_the_larger_one");
+                    }
+                }
+                k += 1;
+            }
+            assert!(m.leader_commit_index >= commit[0], "C36:merged_commit_index_not_the_larger_one");
+            assert!(s.buffered_inbound_event.len() == 3 - n, "C36:queued_request_lost");
+            std::mem::forget((m, senders));
+        }
+        _ => panic!("C36:front_request_lost"),
+    }
+    std::mem::forget(s);
 }
